@@ -514,6 +514,36 @@ theorem reindex_noNew {v : Vol} {r : GStep} (h : NoNew v.geom r) (j : I3) (hj : 
     (v.reindex r).2 j = some (r.2 j) := by
   simp only [Vol.reindex, provOf, h j hj, if_true]
 
+def isStat (m : PadMode) : Bool := m == .minimum || m == .maximum || m == .mean || m == .median
+
+/-- T9d: what the per-channel decision of `Volume.pad` (regenerated from source) computes -/
+theorem padPerChannel_eq {s : String} {mode : PadMode} (hm : PadMode.parse s = some mode) (pc : Bool) (nd : Int) (one : Bool) :
+    padPerChannel s pc nd one = .ok (pc && isStat mode && !(nd == 0 || one)) := by
+  unfold PadMode.parse at hm
+  unfold padPerChannel
+  split at hm
+  · rename_i h; subst h; cases hm; cases pc <;> cases one <;> simp [isStat, beq_eq_decide]
+  · split at hm
+    · rename_i h; subst h; cases hm; cases pc <;> cases one <;> simp [isStat, beq_eq_decide]
+    · split at hm
+      · rename_i h; subst h; cases hm; cases pc <;> cases one <;> simp [isStat, beq_eq_decide]
+      · split at hm
+        · rename_i h; subst h; cases hm; cases pc <;> cases one <;> simp [isStat, beq_eq_decide]
+        · split at hm
+          · rename_i h; subst h; cases hm; cases pc <;> cases one <;> simp [isStat, beq_eq_decide]
+          · split at hm
+            · rename_i h; subst h; cases hm; cases pc <;> cases one <;> simp [isStat, beq_eq_decide]
+            · cases hm
+
+theorem length_zero_beq (l : List Nat) : (Int.ofNat l.length == 0) = l.isEmpty := by
+  cases l with
+  | nil => rfl
+  | cons x xs =>
+    simp only [List.length_cons, List.isEmpty_cons, beq_eq_false_iff_ne, ne_eq]
+    intro h
+    have : (Int.ofNat (xs.length + 1)) = ((xs.length : Int) + 1) := rfl
+    omega
+
 theorem padArray_retained {v : Vol} {f : I3 → I3} {o : PadOpts} {a : I3 → List Nat → Rat} {b : Bool}
     (h : padArray v f o = .ok (a, b)) (j : I3) (hj : v.geom.inRange (f j) = true) (c : List Nat) :
     a j c = v.arr (f j) c := by
@@ -521,6 +551,7 @@ theorem padArray_retained {v : Vol} {f : I3 → I3} {o : PadOpts} {a : I3 → Li
   split at h
   · cases h
   · rename_i mode hm
+    rw [padPerChannel_eq hm] at h
     dsimp only at h
     split at h
     · simp only [Except.ok.injEq, Prod.mk.injEq] at h; obtain ⟨rfl, _⟩ := h; simp [hj]
@@ -1181,7 +1212,7 @@ theorem padArray_constant {v : Vol} {f : I3 → I3} {o : PadOpts} {a : I3 → Li
     a j c = castTo v.isInt o.cval ∧ b = v.isInt := by
   unfold padArray at h
   have : PadMode.parse o.mode = some .constant := by rw [hm]; decide
-  rw [this] at h
+  rw [this, padPerChannel_eq this] at h
   simp only [Except.ok.injEq, Prod.mk.injEq] at h
   obtain ⟨rfl, rfl⟩ := h
   simp [hj]
@@ -1191,7 +1222,7 @@ theorem padArray_edge {v : Vol} {f : I3 → I3} {o : PadOpts} {a : I3 → List N
     a j c = v.arr (v.geom.clamp (f j)) c ∧ b = v.isInt := by
   unfold padArray at h
   have : PadMode.parse o.mode = some .edge := by rw [hm]; decide
-  rw [this] at h
+  rw [this, padPerChannel_eq this] at h
   simp only [Except.ok.injEq, Prod.mk.injEq] at h
   obtain ⟨rfl, rfl⟩ := h
   simp [hj]
@@ -1209,8 +1240,6 @@ theorem clampI_nearest {x n : Int} (k : Int) (hk : 0 ≤ k ∧ k < n) :
   simp only [clampI]
   (repeat' split) <;> omega
 
-def isStat (m : PadMode) : Bool := m == .minimum || m == .maximum || m == .mean || m == .median
-
 /-- statistic modes, whole array: every new voxel holds the statistic of all input values (cast to the dtype) -/
 theorem padArray_stat_global {v : Vol} {f : I3 → I3} {o : PadOpts} {a : I3 → List Nat → Rat} {b : Bool} {mode : PadMode}
     (hm : PadMode.parse o.mode = some mode) (hs : isStat mode = true)
@@ -1218,13 +1247,12 @@ theorem padArray_stat_global {v : Vol} {f : I3 → I3} {o : PadOpts} {a : I3 →
     (h : padArray v f o = .ok (a, b)) (j : I3) (hj : v.geom.inRange (f j) = false) (c : List Nat) :
     ∃ x, statOf mode v.values = some x ∧ a j c = castTo v.isInt x ∧ b = v.isInt := by
   unfold padArray at h
-  rw [hm] at h
+  rw [hm, padPerChannel_eq hm, length_zero_beq] at h
   dsimp only at h
-  have hpc' : (o.perChannel && (mode == .minimum || mode == .maximum || mode == .mean || mode == .median) &&
-      !(v.cshape.isEmpty || v.cshape == [1])) = false := by
-    simp only [isStat] at hs
+  have hpc' : (o.perChannel && isStat mode && !(v.cshape.isEmpty || v.cshape == [1])) = false := by
     rw [hs, Bool.and_true]; exact hpc
-  cases mode <;> simp [isStat] at hs <;> simp only [hpc', Bool.false_eq_true, if_false] at h <;>
+  rw [hpc'] at h
+  cases mode <;> simp [isStat] at hs <;> simp only [Bool.false_eq_true, if_false] at h <;>
   · split at h
     · cases h
     · rename_i x hx
@@ -1264,13 +1292,12 @@ theorem padArray_stat_perChannel {v : Vol} {f : I3 → I3} {o : PadOpts} {a : I3
     (hc : c ∈ chanIndices v.cshape) :
     ∃ x, statOf mode (v.channelValues c) = some x ∧ a j c = castTo v.isInt x ∧ b = v.isInt := by
   unfold padArray at h
-  rw [hm] at h
+  rw [hm, padPerChannel_eq hm, length_zero_beq] at h
   dsimp only at h
-  have hpc' : (o.perChannel && (mode == .minimum || mode == .maximum || mode == .mean || mode == .median) &&
-      !(v.cshape.isEmpty || v.cshape == [1])) = true := by
-    simp only [isStat] at hs
+  have hpc' : (o.perChannel && isStat mode && !(v.cshape.isEmpty || v.cshape == [1])) = true := by
     rw [hs, Bool.and_true]; exact hpc
-  cases mode <;> simp [isStat] at hs <;> simp only [hpc', if_true] at h <;>
+  rw [hpc'] at h
+  cases mode <;> simp [isStat] at hs <;> simp only [if_true] at h <;>
   · split at h
     · cases h
     · rename_i hany
